@@ -185,6 +185,41 @@ theorem run_refines (cfg : DispCfg) (h : Int) (s s' : DispState) (l : Ledger) (m
     simp only at e1 e2
     exact ⟨by rw [e1]; exact e2, hm.1.2, hm.1.1, hm.2⟩
 
+/-- No record is silently dropped: a record that was pending before a run and is not pending after
+    it was processed by the run and is now in `completed` (paid in full: `run_refines`, bank clause)
+    or in `failed`, with its coins.  With `paid_at_most_once` (per key, over the multiset of all
+    outputs ever created for it: `created` sums them with multiplicity) every created unit is
+    pending, paid or failed. -/
+theorem run_leaver_paid_or_failed (cfg : DispCfg) (h : Int) (s s' : DispState) (l : Ledger) (m : MsgRun)
+    (os : List (Key × Rec × Outcome)) (hi : Inv cfg.module s l)
+    (hr : runDistribution cfg h s m = .ok (s', os)) (k : Key) (r : Rec)
+    (hpre : sGet s.pending k = some r) (hpost : sGet s'.pending k = none) :
+    ∃ x ∈ os, x.1 = k ∧ x.2.1 = r ∧
+      ((x.2.2 = .paid ∧ sGet s'.completed k = some { r with done := h }) ∨
+       (x.2.2 = .failed ∧ sGet s'.failed k = some { r with done := h })) := by
+  obtain ⟨s'', os', hr', _, hmap, hf⟩ := run_spec (h := h) hi m
+  rw [hr] at hr'; cases hr'
+  have hex : ∃ x ∈ os, x.1 = k := by
+    apply Classical.byContradiction
+    intro hno
+    have := hf.keep k (fun x hx e => hno ⟨x, hx, e⟩)
+    rw [hpre, hpost] at this; cases this
+  obtain ⟨x, hx, rfl⟩ := hex
+  have hmem : (x.1, x.2.1) ∈ selectRecs m.name m.runner m.typ m.count s.pending := by
+    rw [← hmap]; exact List.mem_map.mpr ⟨x, hx, rfl⟩
+  have hsel := selectRecs_selOK hi.wf m.name m.runner m.typ m.count
+  obtain ⟨e1, e2⟩ := hsel.mem _ hmem
+  simp only at e1 e2
+  rw [← e1, hpre] at e2
+  have hxr : x.2.1 = r := by cases e2; rfl
+  refine ⟨x, hx, rfl, hxr, ?_⟩
+  cases ho : x.2.2 with
+  | paid => left; exact ⟨rfl, by rw [← hxr]; exact hf.donePaid x hx ho⟩
+  | failed => right; exact ⟨rfl, by rw [← hxr]; exact hf.doneFailed x hx ho⟩
+  | skipped =>
+    have := hf.skippedStays x hx ho
+    rw [hpre, hpost] at this; cases this
+
 /-- at most the requested number of records per run -/
 theorem run_at_most_count (cfg : DispCfg) (h : Int) (s s' : DispState) (l : Ledger) (m : MsgRun)
     (os : List (Key × Rec × Outcome)) (hi : Inv cfg.module s l) (n : Nat) (hn : m.count = n)
